@@ -41,6 +41,8 @@ Inductive hop :=
 | HLookup (duid : bytes)
 | HAddPerm (ip : option N) (duid : bytes)
 | HFind (sugg : option N) (duid : bytes) (busy : list N) (res : option N) (tl tend : Z)   (* observed result, its lookup time, end time *)
+| HHold (ip : option N) (duid : bytes) (ttl : Z)
+| HOffer (sugg : option N) (duid : bytes) (busy : list N) (res : option N) (tl tend : Z) (ttl : Z)
 | HAdvance (dt : Z)
 | HInRange (ip : option N).
 
@@ -53,6 +55,15 @@ Definition hstep (x : ipdb) (now : Z) (op : hop) : list N * ipdb * Z :=
   | HFind sg d busy res tl tend =>
       let free := fun a => negb (existsb (N.eqb a) busy) in
       ([if find_ip_valid x now tl sg d free res then 1 else 0], x, tend)
+  | HHold ip d ttl => let (ok, x') := hold_client now ip d ttl x in ([if ok then 1 else 0], x', now)
+  | HOffer sg d busy res tl tend ttl =>
+      let free := fun a => negb (existsb (N.eqb a) busy) in
+      if find_ip_valid x now tl sg d free res then
+        match res with
+        | Some a => let (ok, x') := hold_client tend (Some a) d ttl x in ([if ok then 1 else 0], x', tend)
+        | None => ([1], x, tend)
+        end
+      else ([0], x, tend)
   | HAdvance dt => ([], x, (now + dt)%Z)
   | HInRange ip => ([if in_managed_range x ip then 1 else 0], x, now)
   end.
